@@ -63,6 +63,8 @@ pub enum Fault {
     SlowRead { path: String, yields: u32 },
     /// `read_dir(dir)` fails
     Readdir { path: String, kind: IoKind },
+    /// the n-th output-side read (the compare before the write) fails
+    OutRead { nth: u32, kind: IoKind },
     /// the n-th mutating output-side op (mkdir / write / create) fails before any effect
     Write { nth: u32, kind: IoKind },
     /// the n-th write persists only `keep_permille`/1000 of its bytes, then fails with `kind`
@@ -131,6 +133,7 @@ pub struct Ctx {
     /// counters for fault addressing
     pub out_ops: u32,
     pub mut_ops: u32,
+    pub out_reads: u32,
     pub crashed: bool,
     /// abstract pipeline states seen (queue length, senders alive, receiver alive)
     pub pipe_states: std::collections::BTreeSet<(u32, u32, bool)>,
